@@ -21,7 +21,7 @@ Triples == {<<"triple", o1, o2, o3>> : o1 \in OpSet, o2 \in OpSet, o3 \in OpSet}
 FormCases == {<<"form", o1, o2, f, p>> : o1 \in OpSet, o2 \in OpSet, f \in Forms, p \in {"1", "2", "3"}}
 IfCases == {<<"if">> \o x : x \in IfTexts(3)}
 Postfix == {"field", "index", "method"}
-Chains == UNION {{<<"chain", b, asg>> \o ps : ps \in [1..n -> Postfix]} : n \in 1..4, b \in {"var", "call", "paren", "block"}, asg \in {"read", "assign", "opcall"}}
+Chains == UNION {{<<"chain", b, asg>> \o ps : ps \in [1..n -> Postfix]} : n \in 1..4, b \in {"var", "call", "paren", "block"}, asg \in {"read", "assign", "opcall", "opcall0", "opcall2"}}
 Cases == Triples \cup FormCases \cup IfCases \cup Chains
 
 Expected(x) ==
@@ -36,6 +36,8 @@ Expected(x) ==
                              tk == BaseToks(x[2]) \o ChainToks(ps) IN
                          IF x[3] = "read" THEN [ok |-> TRUE, toks |-> tk, tree |-> tr]
                          ELSE IF x[3] = "opcall" THEN [ok |-> TRUE, toks |-> tk \o <<".", "+", "(", "9", ")">>, tree |-> MCallN(tr, "+", <<IntL(9)>>)]   \* operator called as a method at the end of the chain
+                         ELSE IF x[3] = "opcall0" THEN [ok |-> TRUE, toks |-> tk \o <<".", "<=", "(", ")">>, tree |-> MCallN(tr, "<=", <<>>)]              \* ... with no argument
+                         ELSE IF x[3] = "opcall2" THEN [ok |-> TRUE, toks |-> tk \o <<".", "*", "(", "9", ",", "q", ".", "r", ")">>, tree |-> MCallN(tr, "*", <<IntL(9), GetF(Var("q"), "r")>>)]   \* ... with two
                          ELSE \* assignment through the chain: only a field or an element can be assigned to
                               IF ps[Len(ps)] = "field" THEN [ok |-> TRUE, toks |-> tk \o <<"<-", "5">>, tree |-> [t |-> "SetField", o |-> tr.o, n |-> tr.n, e |-> IntL(5)]]
                               ELSE IF ps[Len(ps)] = "index" THEN [ok |-> TRUE, toks |-> tk \o <<"<-", "5">>, tree |-> [t |-> "SetIndex", o |-> tr.o, i |-> tr.i, e |-> IntL(5)]]
